@@ -168,6 +168,12 @@ pub fn compile(p: &Project) -> CompileOut {
 
 /// `preload`: optional eager registration order (C10)
 pub fn compile_with(p: &Project, preload: Option<&[String]>) -> CompileOut {
+    compile_shared(p, preload, 1).pop().unwrap_or_default()
+}
+
+/// `n` extractions over ONE file manager: the parsed modules of the first extraction are reused by the later ones
+/// (what a watch session and any embedding that keeps its parsed files does)
+pub fn compile_shared(p: &Project, preload: Option<&[String]>, n: u64) -> Vec<CompileOut> {
     let p2 = p.clone();
     let preload = preload.map(|x| x.to_vec());
     let res = std::panic::catch_unwind(move || {
@@ -177,60 +183,68 @@ pub fn compile_with(p: &Project, preload: Option<&[String]>) -> CompileOut {
             if let Some(order) = &preload {
                 fs.preload(order);
             }
-            let entry = EntryPoints {
-                parser_entry_point: BffFileName::new(p2.entry.clone()),
-                settings: BeffUserSettings {
-                    string_formats: p2.string_formats.iter().cloned().collect(),
-                    number_formats: p2.number_formats.iter().cloned().collect(),
-                },
-            };
-            let res = beff_core::extract(&mut fs, entry);
-            let mut out = CompileOut::default();
-            for e in &res.errors {
-                out.diags.push(match &e.loc {
-                    beff_core::diag::Location::Full(f) => Diag {
-                        message: e.message.to_string(),
-                        full: true,
-                        file: f.file_name.to_string(),
-                        line_lo: f.loc_lo.line,
-                        col_lo: f.loc_lo.col.0,
-                        line_hi: f.loc_hi.line,
-                        col_hi: f.loc_hi.col.0,
-                    },
-                    beff_core::diag::Location::Unknown(u) => Diag {
-                        message: e.message.to_string(),
-                        full: false,
-                        file: u.current_file.to_string(),
-                        line_lo: 0,
-                        col_lo: 0,
-                        line_hi: 0,
-                        col_hi: 0,
-                    },
-                });
+            let mut outs = vec![];
+            for _ in 0..n {
+                outs.push(extract_once(&mut fs, &p2));
             }
-            out.wasm_diag = serde_json::to_string(&beff_core::wasm_diag::WasmDiagnostic::from_diagnostics(&res.errors))
-                .unwrap_or_default();
-            out.decoder_names = res
-                .built_decoders
-                .as_ref()
-                .map(|v| v.iter().map(|d| d.exported_name.clone()).collect())
-                .unwrap_or_default();
-            if res.errors.is_empty() {
-                match res.emit_code() {
-                    Ok(c) => out.code = Some(c),
-                    Err(e) => out.emit_err = Some(e.to_string()),
-                }
-            }
-            out
+            outs
         })
     });
     match res {
         Ok(o) => o,
-        Err(_) => CompileOut {
+        Err(_) => vec![CompileOut {
             panic: Some(take_panic().unwrap_or_else(|| "<panic>".to_string())),
             ..Default::default()
-        },
+        }],
     }
+}
+
+fn extract_once(fs: &mut MemFs, p2: &Project) -> CompileOut {
+    let entry = EntryPoints {
+        parser_entry_point: BffFileName::new(p2.entry.clone()),
+        settings: BeffUserSettings {
+            string_formats: p2.string_formats.iter().cloned().collect(),
+            number_formats: p2.number_formats.iter().cloned().collect(),
+        },
+    };
+    let res = beff_core::extract(fs, entry);
+    let mut out = CompileOut::default();
+    for e in &res.errors {
+        out.diags.push(match &e.loc {
+            beff_core::diag::Location::Full(f) => Diag {
+                message: e.message.to_string(),
+                full: true,
+                file: f.file_name.to_string(),
+                line_lo: f.loc_lo.line,
+                col_lo: f.loc_lo.col.0,
+                line_hi: f.loc_hi.line,
+                col_hi: f.loc_hi.col.0,
+            },
+            beff_core::diag::Location::Unknown(u) => Diag {
+                message: e.message.to_string(),
+                full: false,
+                file: u.current_file.to_string(),
+                line_lo: 0,
+                col_lo: 0,
+                line_hi: 0,
+                col_hi: 0,
+            },
+        });
+    }
+    out.wasm_diag = serde_json::to_string(&beff_core::wasm_diag::WasmDiagnostic::from_diagnostics(&res.errors))
+        .unwrap_or_default();
+    out.decoder_names = res
+        .built_decoders
+        .as_ref()
+        .map(|v| v.iter().map(|d| d.exported_name.clone()).collect())
+        .unwrap_or_default();
+    if res.errors.is_empty() {
+        match res.emit_code() {
+            Ok(c) => out.code = Some(c),
+            Err(e) => out.emit_err = Some(e.to_string()),
+        }
+    }
+    out
 }
 
 // ------------------------------------------------------------------------------------------------
@@ -279,10 +293,14 @@ pub fn worker_main() {
         };
         let preload: Option<Vec<String>> = serde_json::from_value(req["preload"].clone()).ok().flatten();
         let repeat = req["repeat"].as_u64().unwrap_or(1);
+        let shared = req["shared"].as_bool().unwrap_or(false);
         // the shipped artefact is wasm with a small stack; 16 MiB is already generous
         let h = std::thread::Builder::new()
             .stack_size(16 * 1024 * 1024)
             .spawn(move || {
+                if shared {
+                    return compile_shared(&project, preload.as_deref(), repeat);
+                }
                 let mut outs = vec![];
                 for _ in 0..repeat {
                     outs.push(compile_with(&project, preload.as_deref()));
@@ -306,10 +324,11 @@ pub enum CompileFail {
 
 pub struct SubCompiler {
     worker: Option<crate::proc::LineWorker>,
+    shared_next: bool,
 }
 impl SubCompiler {
     pub fn new() -> SubCompiler {
-        SubCompiler { worker: None }
+        SubCompiler { worker: None, shared_next: false }
     }
     fn ensure(&mut self) -> Result<(), CompileFail> {
         if self.worker.is_none() {
@@ -330,9 +349,16 @@ impl SubCompiler {
     pub fn restart(&mut self) {
         self.worker = None;
     }
+    /// `repeat` extractions over one file manager (parsed modules shared)
+    pub fn compile_shared(&mut self, p: &Project, repeat: u64, timeout_s: u64) -> Result<Vec<CompileOut>, CompileFail> {
+        self.shared_next = true;
+        let r = self.compile_many(p, None, repeat, timeout_s);
+        self.shared_next = false;
+        r
+    }
     pub fn compile_many(&mut self, p: &Project, preload: Option<&[String]>, repeat: u64, timeout_s: u64) -> Result<Vec<CompileOut>, CompileFail> {
         self.ensure()?;
-        let req = serde_json::json!({"project": p, "preload": preload, "repeat": repeat});
+        let req = serde_json::json!({"project": p, "preload": preload, "repeat": repeat, "shared": self.shared_next});
         let r = self.worker.as_mut().unwrap().request(req, std::time::Duration::from_secs(timeout_s));
         match r {
             Ok(v) => {
